@@ -27,9 +27,9 @@ ENTRY = {
     ],
     "min_tags": {"shape:Concat": 1, "shape:TwoPhase": 1, "shape:TopN": 1, "shape:Gather": 1, "n:1": 1, "n:8": 1, "idle_node": 1, "multi_shard": 1,
                  "self": 1, "noself": 1, "forced_empty": 1, "f:join": 1, "f:agg": 1, "f:having": 1, "f:join_left": 1, "f:join_semi": 1, "f:limit": 1, "cfg:dist:right": 1},
-    "explanation": "Findings C09-F1/F2/F3 are failures of the MERGE step to run (an error where the single-node engine answers), mirrored exactly by the deviation switches of "
-                   "Driver.C09.Dev (evidence tags dev:F*:hit / miss / spurious measure the mirror); C09-F5 (wrong answer: worker-side GROUP BY over scaled shard statistics) and "
-                   "C09-F4 / C09-F6 (inherited: C45 under-gathering; layout-dependent single-node failures) are attributed by signature + a neutraliser the harness actually runs.",
+    "explanation": "Findings C09-F1..F5 and F7 are fixed (their switches / signatures in Driver.C09 only document the corpus witnesses; nothing is attributed to a fixed id, a recurrence "
+                   "is a VIOLATION). C09-F6 (open) is attributed by signature + the neutraliser `neutral_mem1` the harness actually runs. Evidence tags dev:F2|F3:hit/miss/spurious and "
+                   "sig:F1:hit/nofail measure how exactly the switches mirror(ed) the code.",
     "manifest": {
         "category": "proof",
         "text": "Lean theorems over the reference semantics Spec.run, for every data, every cut of the sharded table into any number of shards (empty shards and idle nodes included): "
@@ -42,7 +42,9 @@ ENTRY = {
                 "(C09_concat); the shapes the model admits are exactly those with a decomposition theorem (C09_shape_exact_*). C09_gather is PARTIAL (C09_gather_partial: plan fragment "
                 "scan/filter/project/joins without subquery expressions/UNION ALL/DISTINCT). Tied to the code by correspondence: execute_any_distributed over 1..8 real in-process "
                 "participants on Parquet layouts vs the single-node engine on generated statements; the code's choice of shape and table must be admitted by the model. "
-                "The unchanged tree violates the property: findings C09-F1..F6 (one wrong-answer defect, C09-F5; five error-instead-of-answer or inherited defects).",
+                "Found by this check and repaired in /repo: C09-F5 (WRONG ANSWER: worker-side GROUP BY over scaled shard statistics, 86e0558), C09-F7 (TopN re-sorted by an output "
+                "column named like the order key, faff63a), C09-F1 / F2 / F3 (merge step failing where the single-node engine answers: 5eedc1f, 0ffff93, a981e18), C09-F4 (= C45-F1/F2); "
+                "witnesses stay in corpus/C09. Open: C09-F6 (inherited layout-dependent single-node failure over in-memory tables).",
         "design_ref": "DESIGN.md §6 C09",
         "level_note": "Trusted: Lean kernel; axioms propext/Classical.choice/Quot.sound; the hand-written plan-level model of plan_distributed (validated by correspondence, one-directionally); "
                       "the reference semantics and shared lemma libraries; harness generators. Not covered: the SQL text of the rewritten statements (answers are compared instead), "
